@@ -7,6 +7,37 @@ ROOT = os.path.dirname(os.path.dirname(os.path.abspath(__file__)))
 ALL = [f"C{k:02d}" for k in range(1, 21)]
 
 CLAIMED = {
+    "C10": dict(
+        text=("Decides the INTEGER-DECIDABLE part of the property (stated limits in level_note). Balance.tla defines on integer data: the "
+              "pre-marginalisation filters (zero d diagonals, zero trans pixels in cis mode), marginals as bincount(bin1)+bincount("
+              "bin2), the bin filters (min_nnz, min_count, blacklist, zero/NaN initial weights, MAD-max on the sub-family where the "
+              "median absolute deviation of the log marginals is 0), 'no remaining data' per matrix / per chromosome, hence the exact "
+              "set of bins that must carry NaN; and an exact WITNESS family (uniform filtered marginals S in {1,4,16,64}: one "
+              "iteration, variance 0, weights exactly 1/sqrt(S), scale S, converged; per chromosome in cis mode; two equal "
+              "chromosomes in trans mode). Real balance_cooler /  runs on random integer matrices x modes x "
+              "ignore_diags x min_nnz x min_count x blacklist x initial weights x rescaling x chunk sizes, on witness matrices and on "
+              "the MAD-decidable family; TLC computes the expected NaN set / weights / scale from the integer data and compares "
+              "exactly (TLC itself checks that generated witness cases are witnesses)."),
+        design_ref="DESIGN.md section 6 C10, section 7",
+        note=("NOT decided by this technique (floating point): the flatness bound for general matrices, MAD-max outside its decidable "
+              "sub-family, convergence of general inputs. Trusted: TLC; exactness of power-of-two arithmetic in IEEE floats."),
+        technique="TLA+ specification of the filter pipeline and an exact witness family, evaluated by TLC on recorded balancing runs",
+        category="model_checking"),
+    "C11": dict(
+        text=("Balance.tla / MC_Balance: TLC checks for ALL nnz<=12 x chunk sizes that the clipped spans partition [0,nnz) (and every "
+              "sub-range, cis mode), and models split-apply-combine as processes (5 workers finishing in ANY order, reducer folding "
+              "in completion order): every chunk folded exactly once, final accumulator = total for all 326 partial schedules. "
+              "Conformance: the real split().prepare().pipe().reduce() pipeline is driven through a recording map that evaluates "
+              "and yields chunks in sequential / reversed / randomly permuted completion order for chunk sizes from 1 pixel to "
+              "beyond nnz; TLC validates the recorded spans, every per-chunk partial marginal and the total against the integer "
+              "specification; full balance_cooler runs are repeated under 6-12 (chunk size, map) schedules incl. real multiprocess "
+              "pools (map, imap, imap_unordered) and TLC requires identical NaN sets, equal convergence flags and weights equal "
+              "within 2^-19."),
+        design_ref="DESIGN.md section 6 C11, section 7",
+        note=("NOT decided: coincidence with a dense reference implementation of iterative correction except on C10's exact witness "
+              "family. 'Up to floating-point summation order' = weights quantised to 2^-20, slack 2 units, compared by TLC."),
+        technique="TLA+ model checking (TLC) of spans and schedules + TLC trace validation of recorded pipelines and schedule sweeps",
+        category="model_checking"),
     "C14": dict(
         text=("Selectors.tla: TableSlice (rows of an index range labelled with their row numbers, any column subset) and Annotate (every "
               "pixel gets the attributes of its own two bins, order and index kept) declaratively, and api.annotate's strategy "
